@@ -18,7 +18,7 @@ TRUSTED = ['torch.autograd differentiates each torch primitive correctly; what i
 ASSUMPTIONS = ['inputs away from the documented non-smooth points (|u| = 0, branch cut of the phase, piecewise thresholds, quantisation, masks)']
 
 
-def jvp_check(ctx, name, f, x, tol_fd, tol_model=None, model=None, cls=None):
+def jvp_check(ctx, name, f, x, tol_fd, tol_model=None, model=None, cls=None, h=None):
     """f: tensor -> tensor (any shape).  Compares autograd with central finite differences along a random direction,
     and (if `model` is given: callable (x, v) -> (values, derivs) from the Lean dual model) with the dual-number oracle."""
     rng = ctx.rng
@@ -50,7 +50,7 @@ def jvp_check(ctx, name, f, x, tol_fd, tol_model=None, model=None, cls=None):
     def objective(xx):
         yy = f(xx)
         return float((yy.real * w).sum() + ((yy.imag * (w * 0.7 + 0.1)).sum() if yy.is_complex() else 0.0))
-    h = 1e-6 if x.dtype == torch.float64 else 2e-3
+    h = h or (1e-6 if x.dtype == torch.float64 else 2e-3)
     with torch.no_grad():
         fd = (objective(x.detach() + h * v) - objective(x.detach() - h * v)) / (2 * h)
     scale = max(1.0, abs(fd), abs(ad))
@@ -155,6 +155,18 @@ def run(ctx):
                         ('linear_rgb_to_xyz', None), ('xyz_to_linear_rgb', None), ('rgb_to_hsv', None), ('hsv_to_rgb', None)):
             jvp_check(ctx, 'color/' + nm, lambda x, nm=nm: getattr(CC, nm)(x), col.clone(), 3e-2)
         jvp_check(ctx, 'color/srgb_to_lab', lambda x: CC.srgb_to_lab(x), rnd(3, 2, 2, lo=0.15, hi=0.9, dtype=torch.float32), 3e-2)
+        # boundary colours: exact black / white / saturated channels are valid inputs and smooth points of these conversions
+        # (torch.where back-propagates 0 * d(unselected branch): a power with an infinite slope at 0 turns that into NaN)
+        bcol = rnd(1, 3, 3, 3, lo=0.15, hi=0.9, dtype=torch.float32)
+        bcol[0, :, 0, 0] = 0.0
+        bcol[0, :, 1, 1] = 1.0
+        bcol[0, rng.randrange(3), 2, 2] = 0.0
+        bcol[0, rng.randrange(3), 0, 2] = 1.0
+        for nm in ('rgb_2_ycrcb', 'ycrcb_2_rgb', 'rgb_to_linear_rgb', 'linear_rgb_to_rgb', 'linear_rgb_to_xyz', 'xyz_to_linear_rgb'):
+            jvp_check(ctx, 'color/%s/boundary' % nm, lambda x, nm=nm: getattr(CC, nm)(x), bcol.clone(), 3e-2, cls={'boundary': True}, h=2e-4)
+        jvp_check(ctx, 'color/srgb_to_lab/boundary', lambda x: CC.srgb_to_lab(x), bcol[0].clone(), 5e-2, cls={'boundary': True}, h=2e-4)
+        lab = CC.srgb_to_lab(bcol[0]).detach()
+        jvp_check(ctx, 'color/lab_to_srgb/boundary', lambda x: CC.lab_to_srgb(x), lab.clone(), 5e-2, cls={'boundary': True}, h=2e-3)
         # per-pixel colour derivative against the regenerated model
         px = rnd(3, lo=0.15, hi=0.9, dtype=torch.float32)
         for nm, op in (('rgb_2_ycrcb', 'rgb2ycrcb'), ('linear_rgb_to_xyz', 'lin2xyz'), ('xyz_to_linear_rgb', 'xyz2lin')):
